@@ -34,6 +34,19 @@ impl Default for P2 {
     fn default() -> Self { Self::DEFAULT }
 }
 
+/// one byte; its zeroized state is 0xFF (not the zero byte) and its constant default 0x33
+#[derive(Clone, Debug, PartialEq)]
+struct W1(u8);
+impl Zeroize for W1 {
+    fn zeroize(&mut self) { self.0 = 0xFF; }
+}
+impl ConstDefault for W1 {
+    const DEFAULT: Self = W1(0x33);
+}
+impl Default for W1 {
+    fn default() -> Self { Self::DEFAULT }
+}
+
 trait FillElem: Zeroize + ConstDefault + Default + PartialEq + Clone {
     fn make(seed: u64, i: u64) -> Self;
     fn fields(&self, out: &mut Vec<u64>);
@@ -54,6 +67,10 @@ impl FillElem for [u8; 3] {
 impl FillElem for P2 {
     fn make(s: u64, i: u64) -> Self { P2 { a: val(s, i, 0) as u8, b: val(s, i, 1) as u8 } }
     fn fields(&self, o: &mut Vec<u64>) { o.extend([self.a as u64, self.b as u64]) }
+}
+impl FillElem for W1 {
+    fn make(s: u64, i: u64) -> Self { W1(val(s, i, 0) as u8) }
+    fn fields(&self, o: &mut Vec<u64>) { o.push(self.0 as u64) }
 }
 impl FillElem for Slot {
     fn make(s: u64, i: u64) -> Self { Slot { id: val(s, i, 0) as u32, wiped: val(s, i, 1) % 2 == 1, secret: val(s, i, 2) } }
@@ -131,7 +148,7 @@ fn go<T: FillElem, N: ArrayLength>(kv: &KV) -> String where GenericArray<T, N>: 
 fn run<N: ArrayLength>(kv: &KV) -> String
 where
     GenericArray<u8, N>: ConstDefault, GenericArray<u64, N>: ConstDefault, GenericArray<[u8; 3], N>: ConstDefault,
-    GenericArray<Slot, N>: ConstDefault, GenericArray<GenericArray<Slot, U3>, N>: ConstDefault, GenericArray<P2, N>: ConstDefault,
+    GenericArray<Slot, N>: ConstDefault, GenericArray<GenericArray<Slot, U3>, N>: ConstDefault, GenericArray<P2, N>: ConstDefault, GenericArray<W1, N>: ConstDefault,
 {
     match get(kv, "kind") {
         "u8" => go::<u8, N>(kv),
@@ -139,6 +156,7 @@ where
         "b3" => go::<[u8; 3], N>(kv),
         "slot" => go::<Slot, N>(kv),
         "p2" => go::<P2, N>(kv),
+        "w1" => go::<W1, N>(kv),
         "nest" => go::<GenericArray<Slot, U3>, N>(kv),
         _ => "bad-op".to_string(),
     }
